@@ -26,7 +26,7 @@ func TestCLIWorkers(t *testing.T) {
 	if bin == "" {
 		t.Skip("no race-built command-line binary (VERIF_CLI_RACE)")
 	}
-	harness.Check(t, "cli-workers", 30, 1200, func(rt *rapid.T) {
+	harness.Check(t, "cli-workers", 30, 480, func(rt *rapid.T) {
 		v := rapid.SampledFrom(px.AllVersions).Draw(rt, "version")
 		n := rapid.IntRange(8, 60).Draw(rt, "files")
 		files := map[string][]byte{}
